@@ -381,3 +381,38 @@ def _ble_replay(env, con, obs):
 ReadPdu.bounded_run = staticmethod(_ble_native)
 ReadPdu.replay = staticmethod(_ble_replay)
 WritePdu.replay = staticmethod(_ble_replay)
+
+
+def _all_setup(it):
+    n = it.ctx.choose([0, 1, 2, 3, 4])
+    iids, data = [], []
+    for j in range(n):
+        i = it.fresh(Int, f"iid{j}")
+        it.ctx.assume(z3.And(i.term >= 0, i.term <= 65535))
+        d = it.fresh(Bytes, f"data{j}")
+        it.ctx.assume(z3.Length(d.term) <= 65535)
+        iids.append(i)
+        data.append(d)
+    return {"opcode": it.fresh(EnumOf(cpdu.OpCode), "opcode"), "iids": iids, "data": data}
+
+
+@contract("aiohomekit.controller.coap.pdu:encode_all_pdus", prop="C17")
+class CoapEncodeAllPdus:
+    """a batch request is the PDUs of its items back to back, the j-th with transaction id j (which is how
+    decode_all_pdus attributes the replies) - 0..4 items of any content"""
+
+    setup = _all_setup
+    raises = {}
+
+    def pre(opcode):
+        return 0 <= opcode.value <= 255
+
+    requires = [pre]
+
+    def items_in_order_with_their_index_as_tid(opcode, iids, data, result):
+        out = b""
+        for j in range(len(iids)):
+            out = out + bytes([0, opcode.value, j, iids[j] % 256, iids[j] // 256, len(data[j]) % 256, len(data[j]) // 256]) + data[j]
+        return result == out
+
+    ensures = [items_in_order_with_their_index_as_tid]
